@@ -146,6 +146,7 @@ func runC04(c *kit.Ctx) {
 	{
 		roots := []*ssa.Function{T("stop"), T("start"), T("close")}
 		reach := c.Reach(roots, false, nil)
+		seen043 := map[string]bool{}
 		n := 0
 		for _, fn := range c.ModuleFunctions() {
 			if !inPkg(fn, c, "torrent") {
@@ -168,7 +169,14 @@ func runC04(c *kit.Ctx) {
 					return
 				}
 				n++
-				key := kit.FuncName(fn) + "/go " + recvT.Obj().Pkg().Name() + "." + recvT.Obj().Name() + ".Run"
+				// keyed by the worker type, not by the spawning function: moving the
+				// spawn into a helper does not create a new finding, a second
+				// unjoinable worker type does
+				key := "go " + recvT.Obj().Pkg().Name() + "." + recvT.Obj().Name() + ".Run"
+				if seen043[key] {
+					return
+				}
+				seen043[key] = true
 				// does T have Close and does stop/start/close reach it?
 				var closeFn *ssa.Function
 				for _, t := range []types.Type{recvT, types.NewPointer(recvT)} {
@@ -193,7 +201,7 @@ func runC04(c *kit.Ctx) {
 					"worker has Close and stop()/start()/close() reaches it in the loop goroutine", "worker "+recvT.Obj().Name()+".Run is never Closed from stop()/start()/close()")
 			})
 		}
-		c.Floor("R04.3", "go x.Run sites in package torrent", n, 10)
+		c.Floor("R04.3", "worker types spawned with go x.Run in package torrent", n, 9)
 	}
 
 	// ---- R04.4 teardown list and order
@@ -292,7 +300,11 @@ func runC04(c *kit.Ctx) {
 			return func(ins ssa.Instruction) bool { return rec(ins, depth) }
 		}
 		n := 0
-		for _, fn := range kit.WithAnon(run) {
+		_ = run
+		for _, fn := range c.ModuleFunctions() {
+			if !inPkg(fn, c, "internal/allocator") {
+				continue
+			}
 			kit.Instrs(fn, func(ins ssa.Instruction) {
 				sel, ok := ins.(*ssa.Select)
 				if !ok {
@@ -354,37 +366,52 @@ func runC04(c *kit.Ctx) {
 	// ---- R04.6 a pending verify is discharged
 	{
 		fDoVerify := F("doVerify")
-		starts := []*types.Func{TO("startPieceDownloaders"), TO("startAnnouncers"), TO("startAcceptor")}
+		startAnn, startAcc, startPD := TO("startAnnouncers"), TO("startAcceptor"), TO("startPieceDownloaders")
+		// fact: no manual verify is pending, or a resume bitfield exists (a pending verify
+		// always clears the bitfield before allocation: premise checked below)
+		spec := &kit.Spec{P: c.Prog, Deep: kit.DefaultDeep,
+			Edge: func(a kit.Atom) bool {
+				if a.IsFalse(func(e *kit.Expr) bool { return e.IsField(fDoVerify) }) {
+					return true
+				}
+				return a.IsNilCmp(false, func(e *kit.Expr) bool { return e.IsField(fBitfield) })
+			},
+			Instr: func(ins ssa.Instruction, in bool) bool {
+				if v, ok := kit.StoresField(ins, fDoVerify); ok {
+					return kit.Canon(v).IsConstBool(false)
+				}
+				if _, ok := kit.StoresField(ins, fBitfield); ok {
+					return false
+				}
+				return in
+			}}
+		// the start sequence: every call of startAnnouncers / startAcceptor outside start()
+		// (and startPieceDownloaders next to them) on the roads from the completion handlers
+		completion := c.Reach([]*ssa.Function{T("handleAllocationDone"), T("handleVerificationDone")}, false, func(f *ssa.Function) bool { return !inPkg(f, c, "torrent") })
 		n := 0
-		for _, name := range []string{"handleAllocationDone", "handleVerificationDone"} {
-			h := T(name)
-			fl := (&kit.Flow{P: c.Prog, Fn: h,
-				Edge: func(a kit.Atom) bool {
-					if a.IsFalse(func(e *kit.Expr) bool { return e.IsField(fDoVerify) }) {
-						return true
-					}
-					// a resume bitfield exists: a pending verify always clears it before allocation
-					return name == "handleAllocationDone" && a.IsNilCmp(false, func(e *kit.Expr) bool { return e.IsField(fBitfield) })
-				},
-				Instr: func(ins ssa.Instruction, in bool) bool {
-					if v, ok := kit.StoresField(ins, fDoVerify); ok {
-						return kit.Canon(v).IsConstBool(false)
-					}
-					if _, ok := kit.StoresField(ins, fBitfield); ok && name == "handleAllocationDone" {
-						return false
-					}
-					return in
-				}}).Solve()
-			kit.Instrs(h, func(ins ssa.Instruction) {
-				if !kit.CallsAny(ins, starts...) {
+		for fn := range completion {
+			if fn.Blocks == nil || fn == T("start") {
+				continue
+			}
+			hasSeq := false
+			kit.Instrs(fn, func(ins ssa.Instruction) {
+				if kit.CallsAny(ins, startAnn, startAcc) {
+					hasSeq = true
+				}
+			})
+			if !hasSeq {
+				continue
+			}
+			kit.Instrs(fn, func(ins ssa.Instruction) {
+				if _, isCall := ins.(*ssa.Call); !isCall || !kit.CallsAny(ins, startAnn, startAcc, startPD) {
 					return
 				}
 				n++
-				c.Check(fl.Before(ins), "R04.6", k.key(h, "start after completion"), posOf(ins),
+				c.Check(spec.Holds(ins, 3), "R04.6", k.key(fn, "start after completion"), posOf(ins),
 					"transfer (re)starts only when no manual verify is pending", "a completion handler can start the transfer while a manual verify is pending (verify on a torrent whose files do not exist ends downloading instead of stopped)")
 			})
 		}
-		c.Floor("R04.6", "start calls in completion handlers", n, 9)
+		c.Floor("R04.6", "start calls on the completion roads", n, 3)
 		// premise of the bitfield exemption: whenever doVerify may be set, start() is preceded by bitfield=nil
 		start := TO("start")
 		for _, name := range []string{"handleVerifyCommand", "handleStopped"} {
